@@ -1,12 +1,14 @@
 #!/usr/bin/env python3
-"""Writes seeded/<id>/meta.json from notes.md, demo_cmd.txt and a detection matrix file
-(output of tools/matrix.sh). usage: mkmeta.py <matrix.txt>"""
+"""Writes seeded/<id>/meta.json from notes.md, demo_cmd.txt and detection matrix files
+(output of tools/matrix.sh). usage: mkmeta.py <matrix.txt> [<matrix2.txt> ...]"""
 import json, os, re, sys
 
 ROOT = os.path.dirname(os.path.dirname(os.path.abspath(__file__)))
 matrix = {}
-if len(sys.argv) > 1 and os.path.exists(sys.argv[1]):
-    for line in open(sys.argv[1]):
+for mf in sys.argv[1:]:
+    if not os.path.exists(mf):
+        continue
+    for line in open(mf):
         parts = line.split()
         if not parts or parts[0] == "DONE":
             continue
@@ -16,7 +18,7 @@ if len(sys.argv) > 1 and os.path.exists(sys.argv[1]):
             det[tok[0]] = tok[1]
         matrix[sid] = det
 
-PORTED = {"C03a", "C04b", "C09a", "C10a", "C11a", "C14a"}
+PORTED = {"C03a", "C04b", "C09a", "C10a", "C11a", "C14a", "C15c"}
 
 for sid in sorted(os.listdir(os.path.join(ROOT, "seeded"))):
     d = os.path.join(ROOT, "seeded", sid)
@@ -33,7 +35,8 @@ for sid in sorted(os.listdir(os.path.join(ROOT, "seeded"))):
     meta = {
         "id": sid,
         "breaks_property": prop,
-        "origin": "independent sub-agent given only the property text and its own scratch worktree of /repo (nothing from /verif)",
+        "round": 1 if sid[3] in "ab" else 2,
+        "origin": "independent sub-agent given only the property text and its own scratch worktree of /repo (nothing from /verif)" + ("" if sid[3] in "ab" else "; round 2: plus one-paragraph descriptions of the two round-1 changes of that property, to avoid repeats"),
         "ported_after_fix_commits": sid in PORTED,
         "needs_in_order_to_manifest": needs[:3] if needs else [" ".join(notes.split())[:600]],
         "demonstration": {"files": sorted(f for f in os.listdir(d) if f.endswith("_test.go")), "command": demo},
